@@ -1359,8 +1359,13 @@ func (f *fragment) rangeLT(bitDepth uint, predicate int64, allowEquality bool) (
 		upredicate = uint64(-predicate)
 	}
 
+	// Less than zero: exactly the negatives.
+	if predicate == 0 && !allowEquality {
+		return b.Intersect(f.row(bsiSignBit)), nil
+	}
+
 	// If predicate is positive, return all positives less than predicate and all negatives.
-	if (predicate >= 0 && allowEquality) || (predicate >= -1 && !allowEquality) {
+	if predicate >= 0 {
 		pos, err := f.rangeLTUnsigned(b.Difference(f.row(bsiSignBit)), bitDepth, upredicate, allowEquality)
 		if err != nil {
 			return nil, err
@@ -1429,7 +1434,7 @@ func (f *fragment) rangeGT(bitDepth uint, predicate int64, allowEquality bool) (
 	}
 
 	// If predicate is positive, return all positives greater than predicate.
-	if (predicate >= 0 && allowEquality) || (predicate >= -1 && !allowEquality) {
+	if predicate >= 0 {
 		return f.rangeGTUnsigned(b.Difference(f.row(bsiSignBit)), bitDepth, upredicate, allowEquality)
 	}
 
